@@ -315,6 +315,7 @@ class Blocks(object):
 
     def split(self, inactive):
         self.updateBlockPositions()
+        splits = 0
         for b in self._list:
             v = b.findMinLM()
             if not v is None and v.lm < Solver.LAGRANGIAN_TOLERANCE:
@@ -324,6 +325,8 @@ class Blocks(object):
                     self.insert(nb)
                 self.remove(b)
                 inactive.append(v)
+                splits += 1
+        return splits
 
 
 class Solver(object):
@@ -387,7 +390,7 @@ class Solver(object):
     def satisfy(self):
         if self.bs is None:
             self.bs = Blocks(self.vs)
-        self.bs.split(self.inactive)
+        self.nsplits = self.bs.split(self.inactive)
         v = self.mostViolated()
         while (v) and (
             v.equality or v.slack() < Solver.ZERO_UPPERBOUND and not v.active
@@ -422,7 +425,14 @@ class Solver(object):
         self.satisfy()
         lastcost = maxsize
         cost = self.bs.cost()
-        while abs(lastcost - cost) > 0.0001:
+        # a round can split a block and re-merge it at the same cost while
+        # still changing the active set: only stop once a round at stationary
+        # cost splits nothing (bounded, in case such rounds repeat)
+        stalled = 0
+        while abs(lastcost - cost) > 0.0001 or (
+            self.nsplits and stalled < len(self.cs)
+        ):
+            stalled = stalled + 1 if abs(lastcost - cost) <= 0.0001 else 0
             self.satisfy()
             lastcost = cost
             cost = self.bs.cost()
